@@ -842,7 +842,7 @@ func interpSession(g *gen.G) Sess {
 	paths := map[string]any{"n": doc["n"], "s": doc["s"], "f": doc["f"], "b": doc["b"], "m.x": doc["m"].(map[string]any)["x"],
 		"m.deep.y": doc["m"].(map[string]any)["deep"].(map[string]any)["y"]}
 	pkeys := []string{"n", "s", "f", "b", "m.x", "m.deep.y"}
-	envVals := []string{"alpha", "42", "true", "null", "", "a b", "1.5", "-7", "é", "x:y", "{z}", "[1]", "~"}
+	envVals := []string{"alpha", "42", "true", "null", "", "a b", "1.5", "-7", "é", "x:y", "{z}", "[1]", "~", "k=v", "user=admin;pw=x", "=lead", "pad=="}
 	env := map[string]string{"BKLV_V1": g.Pick(envVals), "BKLV_V2": g.Pick(envVals), "BKLV_K": g.Pick(envVals)}
 	lit := func() string {
 		n := g.N(5)
